@@ -157,7 +157,10 @@ func c16Execute(c *c16Case, rt *rapid.T, base string, rec *vh.Recorder) (fail *v
 				hdr["X-RobustIRC-Config-Revision"] = "latest"
 			case "missing":
 			}
-			parsed, perr := config.FromString(a.TOML)
+			// "it parses": decided here with the TOML library itself, not with the parser of the
+			// state machine (the handler and the state machine must agree on what parses)
+			var parsed config.Network
+			_, perr := toml.Decode(a.TOML, &parsed)
 			before := node.LastIndex()
 			r := n.private("POST", "/config", []byte(a.TOML), "robustirc", nodePassword, hdr)
 			shouldAccept := perr == nil && revOK
@@ -301,7 +304,7 @@ func c16Execute(c *c16Case, rt *rapid.T, base string, rec *vh.Recorder) (fail *v
 			var a c16Action
 			switch rapid.IntRange(0, 15).Draw(rt, "kind") {
 			case 0, 1, 2, 3, 4:
-				a = c16Action{Kind: "config", TOML: ircgen.GenConfig(rt).TOML, Rev: rapid.SampledFrom([]string{"current", "current", "current", "stale", "future", "garbage", "missing"}).Draw(rt, "rev")}
+				a = c16Action{Kind: "config", TOML: ircgen.GenConfigOdd(rt).TOML, Rev: rapid.SampledFrom([]string{"current", "current", "current", "stale", "future", "garbage", "missing"}).Draw(rt, "rev")}
 			case 5:
 				a = c16Action{Kind: "badtoml", TOML: rapid.SampledFrom([]string{"this is not toml = = =", "SessionExpiration = 5", "[IRC\n", "MaxSessions = \"many\""}).Draw(rt, "badtoml"), Rev: rapid.SampledFrom([]string{"current", "stale"}).Draw(rt, "rev")}
 			case 6:
